@@ -68,11 +68,15 @@ HostileOK(e) ==
 HostileAggOK(e) == e.panics = 0 /\ e.inconsistent = 0 /\ e.mutants = e.rejected + e.accepted
 
 Init == l = 1
+\* a column beyond one MiB (too long to be decoded here): decoding it and encoding it again gives the same bytes, the same
+\* number of rows and the same rows (the harness sends digests)
+BigColumnOK(e) == e.err = "" /\ e.rowsOut = e.rows /\ e.inSum = e.outSum /\ e.rowsSumIn = e.rowsSumOut
 LineOK == CASE Ev.ev = "Block" -> BlockOK(Ev)
             [] Ev.ev = "Hostile" -> HostileOK(Ev)
             [] Ev.ev = "HostileAgg" -> HostileAggOK(Ev)
             [] Ev.ev = "Prefix" -> PrefixOK(Ev)
             [] Ev.ev = "Decode" -> DecodeOK(Ev)
+            [] Ev.ev = "BigColumn" -> BigColumnOK(Ev)
             [] OTHER -> FALSE
 \* lines are independent of each other: a failing line is flagged and the validation goes on
 Next == /\ l <= Len(Trace) /\ l' = l + 1
